@@ -1,6 +1,7 @@
 package main
 
 import (
+	"time"
 	"sync/atomic"
 	"fmt"
 	"path/filepath"
@@ -25,10 +26,12 @@ type injector struct {
 	// transaction's last record leaves the outcome in doubt (C12 decides that case); a check that needs
 	// transactions that certainly failed sets this.
 	noSync bool
+	// onlyWrites: only write events are counted (fail the n-th record write whatever else happens in between)
+	onlyWrites bool
 }
 
 func (in *injector) onEvent(ev *FSEvent) (bool, int, error) {
-	if !in.armed || (in.noSync && ev.Op == "sync") {
+	if !in.armed || (in.noSync && ev.Op == "sync") || (in.onlyWrites && ev.Op != "write") {
 		return false, 0, nil
 	}
 	in.count++
@@ -226,6 +229,71 @@ func runC12(c *CaseCtx) {
 		g.M = run.M
 		x := r.Intn(100)
 		switch {
+		case x < 5 && cfg.Mode != 2 && len(u.KVKeys) >= 3:
+			// a commit fails after its first record (the record stays in the log, uncommitted); the handle is closed and a
+			// new one opened AT ONCE, and an unrelated transaction commits on it - all of it, if the machine allows,
+			// within the millisecond in which the failed transaction began (transaction ids must stay unique across
+			// handles of one process). The wait for a fresh millisecond only makes that more likely; no verdict
+			// depends on it.
+			for rep := 0; rep < 4 && !c.Violated() && !run.Dead; rep++ {
+				b := g.bucket()
+				kA, kB, kC := u.KVKeys[r.Intn(len(u.KVKeys))], u.KVKeys[r.Intn(len(u.KVKeys))], u.KVKeys[r.Intn(len(u.KVKeys))]
+				g.M = run.M
+				bad := TxSpec{Mode: "update", Ops: []Op{{K: "Put", B: b, Key: kA, Val: g.value(b, len(kA)+8)}, {K: "Put", B: b, Key: kB, Val: g.value(b, len(kB)+8)}}}
+				good := TxSpec{Mode: "update", Ops: []Op{{K: "Put", B: g.bucket(), Key: kC, Val: g.value(b, len(kC)+8)}}}
+				for t0 := time.Now().UnixNano() / 1e6; time.Now().UnixNano()/1e6 == t0; {
+				}
+				inj.armed, inj.n, inj.count, inj.fired, inj.partial, inj.onlyWrites = true, 2, 0, nil, false, true
+				out := execTx(run.DB, bad)
+				inj.armed, inj.onlyWrites = false, false
+				var db2 *nutsdb.DB
+				var oerr error
+				var out2 TxOut
+				if out.Err != nil && out.Panic == "" {
+					run.DB.Close()
+					if db2, oerr = openNoPanic(cfg.Options(run.Dir)); oerr == nil {
+						out2 = execTx(db2, good)
+					}
+				}
+				// bookkeeping after the time-critical part
+				run.NTx += 2
+				c.Log("tx %d (write error at its second record) %s; close+open; tx %d %s", run.NTx-1, bad.String(), run.NTx, good.String())
+				c.Stat("quick_reopen_scenarios", 1)
+				if out.Panic != "" {
+					c.Violate("panic:tx:"+out.Panic, class, "panic in a commit with an injected write error: "+out.Panic)
+					run.Dead = true
+					break
+				}
+				if out.Err == nil {
+					// the fault did not fire (single-record rotation ...): an ordinary committed transaction
+					m := run.M.Clone()
+					for k, o := range bad.Ops {
+						m.Apply(o, out.Res[k])
+					}
+					run.M = m
+					continue
+				}
+				if oerr != nil {
+					c.Violate("open-failed:"+errClass(oerr.Error()), class, "Open right after a failed commit failed: "+oerr.Error())
+					run.Dead = true
+					break
+				}
+				run.DB = db2
+				run.FaultSinceOpen = false
+				if out2.Err != nil || out2.Panic != "" {
+					c.Violate("commit-error:after-quick-reopen", class, fmt.Sprintf("commit on the new handle failed: %v %s", out2.Err, out2.Panic))
+					break
+				}
+				m := run.M.Clone()
+				for k, o := range good.Ops {
+					m.Apply(o, out2.Res[k])
+				}
+				run.M = m
+				faultKinds["quick-reopen"] = true
+				if !run.CheckObs("after-quick-reopen") || !run.Reopen() || !run.CheckObs("after-quick-reopen+reopen") {
+					break
+				}
+			}
 		case x < 25: // ordinary committed transaction
 			run.Tx(g.WriteTx(true), false)
 			if r.Intn(4) == 0 {
